@@ -17,6 +17,7 @@ use crate::reg::Reg;
 #[cfg(feature = "c11")] pub mod c11;
 #[cfg(feature = "c03")] pub mod c03;
 #[cfg(feature = "c02")] pub mod c02;
+#[cfg(feature = "c19")] pub mod c19;
 
 pub fn register(prop: &str, reg: &mut Reg) {
     match prop {
@@ -36,6 +37,7 @@ pub fn register(prop: &str, reg: &mut Reg) {
         #[cfg(feature = "c11")] "C11" => c11::register(reg),
         #[cfg(feature = "c03")] "C03" => c03::register(reg),
         #[cfg(feature = "c02")] "C02" => c02::register(reg),
+        #[cfg(feature = "c19")] "C19" => c19::register(reg),
         _ => { eprintln!("symx: property {} not available in this build", prop); std::process::exit(2); }
     }
 }
